@@ -150,6 +150,10 @@ pub enum Action {
 	/// revoke_and_ack with the secret of the wrong commitment number (the next point's parent
 	/// replaced), 2: commitment_signed with a signature made invalid
 	Tamper { from: usize, to: usize, kind: u8 },
+	/// C14: the update_add_htlc at the head of the queue from->to is altered in flight (kind 0: a
+	/// bit of the onion's hop data, 1: a bit of its HMAC, 2: its ephemeral key, 3: a bit of the
+	/// payment hash) and delivered
+	Corrupt { from: usize, to: usize, kind: u8, bit: u32 },
 	/// C08: node `n` loses all its connections and cannot reconnect until `Heal`
 	Partition { n: usize },
 	Heal { n: usize },
@@ -191,6 +195,7 @@ impl Action {
 			Action::Liquidate => "Liquidate",
 			Action::Cheat { .. } => "Cheat",
 			Action::Tamper { .. } => "Tamper",
+			Action::Corrupt { .. } => "Corrupt",
 			Action::Partition { .. } => "Partition",
 			Action::Heal { .. } => "Heal",
 			Action::Gone { .. } => "Gone",
@@ -222,7 +227,7 @@ impl Action {
 			| Action::Heal { n }
 			| Action::Gone { n }
 			| Action::Abandon { n, .. } => *n,
-			Action::Deliver { to, .. } | Action::Tamper { to, .. } => *to,
+			Action::Deliver { to, .. } | Action::Tamper { to, .. } | Action::Corrupt { to, .. } => *to,
 			Action::Disconnect { a, .. } | Action::Reconnect { a, .. } => *a,
 			Action::Send { from, .. } => *from,
 			Action::Mine { .. } | Action::Reorg { .. } | Action::Settle | Action::Liquidate | Action::LiqPlan { .. } => 99,
@@ -502,6 +507,10 @@ pub struct Pay {
 	pub claim_height: Option<u32>,
 	pub claim_deadline: Option<u32>,
 	pub claim_incarnation: Option<u32>,
+	/// best block height of the sender when the payment was sent
+	pub send_height: u32,
+	/// profile `onionline`: the one forwarding hop (index into the path's nodes) that is under-paid
+	pub underpaid_hop: Option<usize>,
 	/// the sender restarted from a manager snapshot older than the payment and re-learned it
 	/// from its ChannelMonitors
 	pub rehydrated: bool,
@@ -542,6 +551,8 @@ pub struct World {
 	/// set while a Tamper action delivers the head of a queue
 	pub tamper: Option<u8>,
 	pub tampers_done: u32,
+	pub onion: crate::onionline::OnionState,
+	pub corrupt_in_progress: bool,
 	/// batch-sweep checks already made: (node, number of outputs, first outpoint)
 	pub batch_sweep_checked: BTreeSet<(usize, usize, bitcoin::OutPoint)>,
 	/// C08: nodes currently cut off; nodes that were ever cut off or gone; last HTLC views
@@ -715,6 +726,8 @@ impl World {
 			cheat: None,
 			tamper: None,
 			tampers_done: 0,
+			onion: Default::default(),
+			corrupt_in_progress: false,
 			batch_sweep_checked: BTreeSet::new(),
 			partitioned: BTreeSet::new(),
 			ever_unresponsive: BTreeSet::new(),
@@ -1291,6 +1304,20 @@ impl World {
 				self.note_close_with_inflight(to, c);
 			}
 		}
+		// C14: a clean retransmission (after a reconnect) of an update_add_htlc whose first copy was
+		// altered in flight supersedes the altered copy, which the receiver forgot on disconnect
+		if let WireMsg::Add(a) = &m2 {
+			if !self.corrupt_in_progress {
+				if let Some((_, k, ci)) = self.onion.corrupted.get(&a.payment_hash.0).cloned() {
+					let same_link = self.chans[ci].channel_id == a.channel_id
+						&& self.pays.iter().any(|p| p.hash == a.payment_hash && p.paths.iter().any(|x| x.nodes.get(k) == Some(&to)));
+					if same_link {
+						self.onion.corrupted.remove(&a.payment_hash.0);
+						self.out.bump("probe:altered_add_superseded_by_clean_retransmission");
+					}
+				}
+			}
+		}
 		let mut m2 = m2;
 		let mut tampered_chan = None;
 		if let Some(kind) = self.tamper.take() {
@@ -1556,6 +1583,7 @@ impl World {
 						ClaimableInfo { amount_msat, claim_deadline, seen_at_height: h },
 					);
 					self.oracle_on_claimable(n, pi, amount_msat, claim_deadline);
+					self.onion_oracle_on_claimable(n, pi);
 				} else {
 					self.violate(
 						"C04",
@@ -1591,11 +1619,26 @@ impl World {
 					self.oracle_on_failed(n, pi);
 				}
 			},
-			Event::PaymentPathFailed { payment_id, short_channel_id, payment_failed_permanently, .. } => {
+			Event::PaymentPathFailed { payment_id, short_channel_id, payment_failed_permanently, failure, .. } => {
 				if let Some(pi) = payment_id.and_then(|id| self.pay_by_id(&id)) {
 					let g = self.nodes[n].disk.lock().unwrap().manager_generation;
 					self.pays[pi].ev.path_failed_gen.push(g);
 					self.pays[pi].ev.path_failed.push((step, short_channel_id, payment_failed_permanently));
+					// whom the decoded failure blames: a channel and/or a node
+					let (blamed_chan, blamed_node) = match &failure {
+						lightning::events::PathFailure::OnPath { network_update: Some(u) } => match u {
+							lightning::routing::gossip::NetworkUpdate::ChannelFailure { short_channel_id, .. } => {
+								(Some(*short_channel_id), None)
+							},
+							lightning::routing::gossip::NetworkUpdate::NodeFailure { node_id, .. } => (None, Some(*node_id)),
+						},
+						_ => (None, None),
+					};
+					if let lightning::events::PathFailure::InitialSend { .. } = &failure {
+						// the HTLC never left the sender: nothing was attributed to anybody
+						return;
+					}
+					self.onion_oracle_on_path_failed(n, pi, short_channel_id, blamed_chan, blamed_node, payment_failed_permanently);
 				}
 			},
 			Event::PaymentForwarded { total_fee_earned_msat, outbound_amount_forwarded_msat, claim_from_onchain_tx, .. } => {
@@ -1755,11 +1798,15 @@ impl World {
 			let mut deltas = vec![0u32; k];
 			hop_amts[k - 1] = amts[pi];
 			deltas[k - 1] = self.final_cltv_for(amts, pi);
+			// profile `onionline`: a negative adjustment -(j+1) under-pays forwarding hop j alone, by one
+			let single = self.cfg.profile == "onionline";
 			for i in (0..k - 1).rev() {
 				// node nodes[i] forwards from chans[i] to chans[i+1]
-				let fee = self.fwd_fee(nodes[i], hop_amts[i + 1]) as i64 + fee_delta;
+				let fd = if single { if fee_delta == -(i as i64 + 1) { -1 } else { 0 } } else { fee_delta };
+				let ca = if single { if cltv_adj == -(i as i32 + 1) { -1 } else { 0 } } else { cltv_adj };
+				let fee = self.fwd_fee(nodes[i], hop_amts[i + 1]) as i64 + fd;
 				hop_amts[i] = (hop_amts[i + 1] as i64 + fee.max(0)) as u64;
-				deltas[i] = (self.nodes[nodes[i]].cfg.cltv_delta as i32 + cltv_adj).max(0) as u32;
+				deltas[i] = (self.nodes[nodes[i]].cfg.cltv_delta as i32 + ca).max(0) as u32;
 			}
 			out.push(PathInfo { chans: chans.clone(), nodes, hop_amts, hop_cltv_deltas: deltas });
 		}
@@ -1835,6 +1882,9 @@ impl World {
 			),
 			total,
 		);
+		let mut route_params = route_params;
+		// the route is given, not searched for: no fee budget applies
+		route_params.max_total_routing_fee_msat = None;
 		let route = Route { paths: route_paths, route_params };
 		let onion = RecipientOnionFields::secret_only(secret, total);
 		// what the channel said it could carry, for the send-limit oracle
@@ -1871,6 +1921,21 @@ impl World {
 				&& infos.iter().any(|p| {
 					(0..p.nodes.len().saturating_sub(1)).any(|i| self.fwd_fee(p.nodes[i], p.hop_amts[i + 1]) > 0)
 				}));
+		// profile `onionline`: which single forwarding hop is under-paid (if its fee is not zero anyway)
+		let underpaid_hop = if self.cfg.profile == "onionline" && infos.len() == 1 {
+			let p = &infos[0];
+			let fwd = p.nodes.len().saturating_sub(1);
+			let by_fee = if fee_delta < 0 { Some((-fee_delta - 1) as usize) } else { None };
+			let by_cltv = if cltv_adj < 0 { Some((-cltv_adj - 1) as usize) } else { None };
+			match (by_cltv, by_fee) {
+				(Some(j), _) if j < fwd => Some(j),
+				(_, Some(j)) if j < fwd && self.fwd_fee(p.nodes[j], p.hop_amts[j + 1]) > 0 => Some(j),
+				_ => None,
+			}
+		} else {
+			None
+		};
+		let underpays = if self.cfg.profile == "onionline" { underpaid_hop.is_some() } else { underpays };
 		self.pays.push(Pay {
 			idx,
 			from,
@@ -1894,6 +1959,8 @@ impl World {
 			claim_height: None,
 			claim_deadline: None,
 			claim_incarnation: None,
+			send_height: self.nodes[from].synced_height,
+			underpaid_hop,
 			rehydrated: false,
 		});
 		self.note(&format!("send pay {} {}->{} total {} accepted {}", idx, from, to, total, pending));
@@ -2385,6 +2452,7 @@ impl World {
 				true
 			},
 			Action::Tamper { from, to, kind } => self.do_tamper(*from, *to, *kind),
+			Action::Corrupt { from, to, kind, bit } => self.do_corrupt(*from, *to, *kind, *bit),
 			Action::Partition { n } => self.do_partition(*n),
 			Action::Heal { n } => self.do_heal(*n),
 			Action::Gone { n } => self.do_gone(*n),
